@@ -27,10 +27,11 @@ FLOORS = {"histories": 1500, "steps": 20000, "slot_resolutions": 100000, "growth
           "empty_nd_reference_arrays": 300, "copy_same_buffer": 300, "copy_other_buffer": 300, "toplevel_union_get": 3000, "second_handle_resolutions": 50000, "copies_of_holders_with_default_targets": 200, "arrays_of_items_with_default_targets": 300}
 FLOORS.update({"op:" + o: 800 for o in OPS})
 FLOORS["op:bind-other-type"] = 150
+FLOORS["union_object_bound_to_union_slot"] = 150
 RULE = ("generated reference-bearing types (Ref and UnionRef as struct fields and as array items, referents that hold "
         "references themselves, 1-3 dimensional arrays of references in any axis order created without values) in two "
         "buffers; histories of <=25 steps over {construct, construct-empty, copy of a holder into the same / the other "
-        "buffer (same referents / duplicated referents), bind-to-existing, "
+        "buffer (same referents / duplicated referents), bind-to-existing (also a union reference object of the slot's class, which stands for its referent; targets of automatically named array classes evaluated afresh, arrays of arrays), "
         "bind-to-value, bind-to-foreign-object, bind-to-null, write-through-ref, write-through-original, "
         "allocate-until-growth}; after EVERY step each object is re-read against the graph model and each slot is "
         "resolved: alias => same offset/buffer and writes visible both ways; value/foreign => fresh extent inside a "
@@ -532,6 +533,17 @@ def _step(G, op, rng, vg, tt, holders, holders_live, fresh):
             o.mv = set_model(o.t, o.mv, p, None)
             G.hist.append([op, f"#{o.i}{l}"])
             return True
+        if op == "bind-existing" and k == "ur" and rng.random() < 0.8:
+            # the value is a union reference OBJECT of the slot's own class living in the same buffer (null or not):
+            # the slot must then denote what that object denotes (the very same referent)
+            ucand = [x for x in G.objs.values() if x.h is not None and x.env is o.env and x.t is nt]
+            if ucand:
+                uo = rng.choice(ucand)
+                set_path(o.h, p, uo.h)
+                o.mv = set_model(o.t, o.mv, p, uo.mv)
+                G.w.count("union_object_bound_to_union_slot")
+                G.hist.append([op, f"#{o.i}{l}", f"union object #{uo.i}"])
+                return True
         if op == "bind-existing":
             cand = [x for x in G.objs.values() if x.h is not None and x.env is o.env and x.t is mt]
             if not cand:
